@@ -1,8 +1,8 @@
 package rules
 
 import (
-	"go/types"
 	"fmt"
+	"go/types"
 	"sort"
 	"strings"
 
@@ -57,7 +57,9 @@ func ruleR07a(c *Check) {
 	for _, m := range methods {
 		inFs[m] = true
 	}
-	local := func(e *engine.Edge) bool { return e.Via != nil && inFs[e.Via.Parent()] && e.Kind != engine.EField && !isContentEdge(e) }
+	local := func(e *engine.Edge) bool {
+		return e.Via != nil && inFs[e.Via.Parent()] && e.Kind != engine.EField && !isContentEdge(e)
+	}
 	// final-path values: derived from the cache dir field inside the fs methods
 	fwd := c.G.Forward([]Node{cacheDir}, func(e *engine.Edge) bool {
 		if !local(e) {
